@@ -108,7 +108,19 @@ package queue
 //@   ensures[inv] dpqInv(dpq)
 //@   ensures[held] held(dpq.mutex)
 
+// The window roll-over goroutine sleeps until the END OF THE CURRENT WINDOW, every round: the duration handed to the
+// clock is the distance from the instant the clock was read for it to the window end (not one window length after a
+// late wake-up, which would keep every later release late by the same amount and let waiters expire while quota is free).
+//@ ghost var gTillRead int64    // the instant GetTimeTillWindowEnd read the clock
+//@ func (*DelayedPriorityQueue).GetTimeTillWindowEnd
+//@   prop C10
+//@   mode seq
+//@   requires dpq.clock != nil
+//@   modifies gTillRead, now
+//@   on return do gTillRead = dpq.currentWindowEndTime.UnixNano() - result
+//@   ensures[distance-to-the-window-end] gTillRead + result == dpq.currentWindowEndTime.UnixNano() && gTillRead <= now()
 //@ func (*DelayedPriorityQueue).process
 //@   prop C10
+//@   sleep requires[sleeps-till-the-end-of-the-current-window] seq: gTillRead + d == dpq.currentWindowEndTime.UnixNano()
 //@   requires dpq.strategy.WindowQuota >= 0 && dpq.strategy.WindowSize > 0 && dpq.clock != nil && forall(r, *Request, chcap(r.doneCh) == 0)
 //@   loop 1 invariant[cfg] dpq.strategy.WindowQuota >= 0 && dpq.strategy.WindowSize > 0 && dpq.clock != nil && forall(r, *Request, chcap(r.doneCh) == 0)
